@@ -6,6 +6,8 @@
    replay                : stdin = command scripts predicted by the specification
                            (spec/mc/MC_BashPrg); executes them, compares after every command,
                            prints one result line per case
+   steps                 : (C10) stdin = fragment scripts on the Start/Step/Get bundles with Get positions
+                           and state relocation; one line per script
    platform              : prints the bash-f platform compiled into the library */
 #include "vx.h"
 #include <bee2/core/err.h>
@@ -667,6 +669,159 @@ static void replay(void)
 	free(state); free(buf);
 }
 
+
+/* ------------------------------------------------------------------ C10: fragment scripts on the Start/Step/Get bundles
+   stdin: lines "steps b=<bundle> p=<parameter index> script=S<n>,G,V,R,..."
+     S<n> one Step on a fresh exact-size fragment of n octets, G Get at this position (V = Get + Verify where
+     the bundle has one), R relocation of the state (copied to a fresh buffer, the old copy overwritten with 0x5A
+     and kept allocated until the end of the script).
+   One ndjson line per script, judged by spec/trace/Trace_Bash.tla (op "steps"). */
+enum { SB_HASH, SB_ABSORB, SB_SQUEEZE, SB_ENCR, SB_DECR, SB_CTR, SB_HMAC, SB_HOTP, SB_TOTP, SB_OCRA, SB_N };
+static const char* SBN[SB_N] = {"bashHash", "prgAbsorb", "prgSqueeze", "prgEncr", "prgDecr", "brngCTR", "brngHMAC", "hotp", "totp", "ocra"};
+static const char steps_suite[] = "OCRA-1:HOTP-HBELT-8:C-QN08-PHBELT-S064-T1M";
+
+typedef struct { size_t xlen, k, tlen; octet tag[64]; } sget_t;
+
+static int runSteps(int b, size_t p, const char* script)
+{
+	static const size_t hl[] = {128, 192, 256, 16, 80};
+	static const size_t ivl[] = {32, 65, 0, 64, 100, 1};
+	size_t l = 128, d = 1, al = 0, kl = 0, keep, cap = 8192, inl = 0, outl = 0, ng = 0, nx = 0, vbad = 0, digit = 6, ivlen = 32, i;
+	octet ann[64], key[64], iv[128], ctr[8], pp[64], ss[512], q[16], pre[64];
+	octet* in = st_alloc(cap); octet* out = st_alloc(cap);
+	octet* frs[64]; size_t frl[64]; octet* ous[64]; size_t oul[64];
+	char otp[32]; sget_t gets[64]; void* st; void* olds[64]; size_t nold = 0;
+	tm_time_t t = (tm_time_t)(vxRand64() >> 24);
+	const char* c = script;
+	vxRandBuf(key, 64); vxRandBuf(iv, 128); vxRandBuf(ann, 64); vxRandBuf(pp, 64); vxRandBuf(ss, 512); vxRandBuf(q, 16); vxRandBuf(pre, 64);
+	ctrClass(ctr, (int)(p % 6));
+	switch (b)
+	{
+	case SB_HASH: l = hl[p % 5]; keep = bashHash_keep(); break;
+	case SB_ABSORB: case SB_SQUEEZE: case SB_ENCR: case SB_DECR:
+		l = hl[p % 3]; d = 1 + (p / 3) % 2;
+		kl = (b == SB_ENCR || b == SB_DECR || (p / 6) % 2 == 0) ? l / 8 + 4 * ((p / 12) % 2) : 0; al = 4 * (p % 5);
+		keep = bashPrg_keep(); break;
+	case SB_CTR: keep = brngCTR_keep(); break;
+	case SB_HMAC: keep = brngHMAC_keep(); ivlen = ivl[p % 6]; kl = p % 2 ? 32 : 40; break;
+	case SB_HOTP: keep = botpHOTP_keep(); digit = 6 + p % 3; break;
+	case SB_TOTP: keep = botpTOTP_keep(); digit = 6 + p % 3; break;
+	default: keep = botpOCRA_keep(); digit = 8; break;
+	}
+	st = st_alloc(keep);
+	switch (b)
+	{
+	case SB_HASH: bashHashStart(st, l); break;
+	case SB_ABSORB: bashPrgStart(st, l, d, ann, al, key, kl); bashPrgAbsorbStart(st); break;
+	case SB_SQUEEZE: bashPrgStart(st, l, d, ann, al, key, kl); bashPrgAbsorb(pre, 64, st); bashPrgSqueezeStart(st); break;
+	case SB_ENCR: bashPrgStart(st, l, d, ann, al, key, kl); bashPrgEncrStart(st); break;
+	case SB_DECR: bashPrgStart(st, l, d, ann, al, key, kl); bashPrgDecrStart(st); break;
+	case SB_CTR: brngCTRStart(st, key, iv); break;
+	case SB_HMAC: brngHMACStart(st, key, kl, iv, ivlen); break;
+	case SB_HOTP: botpHOTPStart(st, digit, key, 32); botpHOTPStepS(st, ctr); break;
+	case SB_TOTP: botpTOTPStart(st, digit, key, 32); break;
+	default: if (!botpOCRAStart(st, steps_suite, key, 32)) return 2; botpOCRAStepS(st, ctr, pp, ss); break;
+	}
+	while (*c)
+	{
+		char op = *c++; size_t n = 0;
+		while (*c >= '0' && *c <= '9') n = n * 10 + (size_t)(*c++ - '0');
+		if (*c == ',') ++c;
+		if (op == 'R')
+		{
+			void* st2 = st_alloc(keep);
+			if (nold >= 64) return 2;
+			memcpy(st2, st, keep); memset(st, 0x5A, keep); olds[nold++] = st; st = st2;
+		}
+		else if (op == 'S')
+		{
+			octet* fr = (octet*)malloc(n ? n : 1);
+			if (inl + n > cap || nx >= 64) return 2;
+			vxRandBuf(fr, n); memcpy(in + inl, fr, n);
+			frs[nx] = (octet*)malloc(n ? n : 1); memcpy(frs[nx], fr, n); frl[nx] = n;
+			switch (b)
+			{
+			case SB_HASH: bashHashStepH(fr, n, st); break;
+			case SB_ABSORB: bashPrgAbsorbStep(fr, n, st); break;
+			case SB_SQUEEZE: bashPrgSqueezeStep(fr, n, st); break;
+			case SB_ENCR: bashPrgEncrStep(fr, n, st); break;
+			case SB_DECR: bashPrgDecrStep(fr, n, st); break;
+			case SB_CTR: brngCTRStepR(fr, n, st); break;
+			case SB_HMAC: brngHMACStepR(fr, n, st); break;
+			case SB_HOTP: botpHOTPStepR(otp, st); n = strlen(otp); memcpy(fr = (octet*)realloc(fr, n + 1), otp, n); break;
+			case SB_TOTP: botpTOTPStepR(otp, t, st); n = strlen(otp); memcpy(fr = (octet*)realloc(fr, n + 1), otp, n); break;
+			default: botpOCRAStepR(otp, q, 8, t, st); n = strlen(otp); memcpy(fr = (octet*)realloc(fr, n + 1), otp, n); break;
+			}
+			ous[nx] = (octet*)malloc(n ? n : 1); memcpy(ous[nx], fr, n); oul[nx] = n;
+			if (outl + n <= cap) memcpy(out + outl, fr, n), outl += n;
+			if (b < SB_HOTP) inl += n;
+			++nx; free(fr);
+		}
+		else if (op == 'G' || op == 'V')
+		{
+			sget_t* g = &gets[ng];
+			if (ng >= 64) return 2;
+			g->xlen = inl; g->k = nx; g->tlen = 0;
+			switch (b)
+			{
+			case SB_HASH:
+				g->tlen = l / 4; bashHashStepG(g->tag, g->tlen, st);
+				if (op == 'V')
+				{
+					octet bad[64]; memcpy(bad, g->tag, g->tlen); bad[vxRandN(g->tlen)] ^= (octet)(1u << vxRandN(8));
+					if (!bashHashStepV(g->tag, g->tlen, st)) ++vbad;
+					if (bashHashStepV(bad, g->tlen, st)) ++vbad;
+				}
+				break;
+			case SB_ABSORB:
+			{	/* what a squeeze at this position would return: on a copy, the automaton itself goes on absorbing */
+				void* cp = st_alloc(keep); memcpy(cp, st, keep);
+				g->tlen = 32; bashPrgSqueeze(g->tag, 32, cp); free(cp); break;
+			}
+			case SB_CTR: g->tlen = 32; brngCTRStepG(g->tag, st); break;
+			case SB_HOTP: g->tlen = 8; botpHOTPStepG(g->tag, st); break;
+			case SB_OCRA: g->tlen = 8; botpOCRAStepG(g->tag, st); break;
+			default: break;
+			}
+			if (g->tlen) ++ng;
+		}
+	}
+	jBegin(); jStr("op", "steps"); jStr("b", SBN[b]); jStr("script", script); jInt("l", (long long)l); jInt("d", (long long)d);
+	jInt("digit", (long long)digit); jOct("ann", ann, al); jOct("key", key, b == SB_CTR || b >= SB_HOTP ? 32 : kl); jOct("iv", iv, b == SB_CTR ? 32 : ivlen);
+	jOct("pre", pre, 64); jOct("ctr", ctr, 8); jOct("p", pp, 64); jOct("s", ss, 512); jOct("q", q, 8); jLimbs16("t", &t, 8); jS("suite", steps_suite);
+	jOct("in", in, inl); jOct("out", out, outl); jOctArr("xs", frs, frl, nx); jOctArr("outs", ous, oul, nx);
+	jInt("vbad", (long long)vbad);
+	jSep(); fprintf(vx_out, "\"gets\":[");
+	for (i = 0; i < ng; ++i)
+	{
+		size_t j; fprintf(vx_out, "%s{\"xlen\":%u,\"k\":%u,\"tag\":[", i ? "," : "", (unsigned)gets[i].xlen, (unsigned)gets[i].k);
+		for (j = 0; j < gets[i].tlen; ++j) fprintf(vx_out, j ? ",%u" : "%u", gets[i].tag[j]);
+		fprintf(vx_out, "]}");
+	}
+	fputc(']', vx_out);
+	jEnd();
+	for (i = 0; i < nx; ++i) free(frs[i]), free(ous[i]);
+	for (i = 0; i < nold; ++i) free(olds[i]);
+	free(st); free(in); free(out);
+	return 0;
+}
+
+static int stepsMain(void)
+{
+	static char line[1 << 16]; vx_cmd c;
+	while (fgets(line, sizeof line, stdin))
+	{
+		const char* bn; const char* script; int b;
+		if (!vxParse(&c, line)) continue;
+		bn = vxArg(&c, "b"); script = vxArg(&c, "script");
+		if (!bn || !script) continue;
+		for (b = 0; b < SB_N; ++b) if (strcmp(SBN[b], bn) == 0) break;
+		if (b == SB_N) { fprintf(stderr, "unknown bundle %s\n", bn); return 3; }
+		if (runSteps(b, (size_t)vxInt(&c, "p", 0), script)) return 2;
+	}
+	return 0;
+}
+
 int main(int argc, char** argv)
 {
 	const char* mode = argc > 1 ? argv[1] : "record";
@@ -689,5 +844,6 @@ int main(int argc, char** argv)
 		return 0;
 	}
 	if (strcmp(mode, "replay") == 0) { replay(); return 0; }
+	if (strcmp(mode, "steps") == 0) return stepsMain();
 	return 2;
 }
